@@ -199,6 +199,21 @@ def run(prog: Program, rep: Report, tier: str):
                 if ia.sym.term(val, n) == ("param", f"start_{given[0]}"):
                     continue  # the given component passed through
                 branches[given[0]].append((n, f"start_{var_unit[var]}", val))
+    for g in UNITS:
+        if branches[g]:
+            continue
+        # merged branches ('if start_update is None: start_update = start_sample // b' followed by one derivation for both): the
+        # stores that survive on the CFG pruned by 'exactly start_<g> is given' are that checkpoint's completion
+        case_ = {is_none(("param", f"start_{w}")): (w != g) for w in UNITS}
+        pa_ = ia.prune(case_)
+        for n, var, val in pa_.stores():
+            if var in var_unit and val is not None and n in pa_.cfg.nodes:
+                t_ = pa_.sym.term(val, n)
+                if t_ == ("param", f"start_{g}") or var_unit[var] == g and ("param", f"start_{g}") in leaves(t_) and t_[0] == "var":
+                    continue
+                if var_unit[var] == g:
+                    continue  # the given component (possibly re-bound to itself through a local)
+                branches[g].append((n, f"start_{var_unit[var]}", val))
     n_derived = 0
     for g in UNITS:
         rejects_no_drop_last = False
@@ -265,6 +280,8 @@ def run(prog: Program, rep: Report, tier: str):
                 assume_s[conj] = True
         lf = R.fa.prune(assume_s)
         loop_t = _value_of_var(lf, SPE_loop, R.main_iter)
+        if loop_t is not None:
+            loop_t = _renorm(_simplify_or(simplify(loop_t, assume_s), assume_s))
         pi = ia.prune(assume_p)
         q = {}
         for n, var, val in ep:
